@@ -186,7 +186,7 @@ def run_all(cases, have_drv=True, workers=16):
 
 def run(res, tier, seed, search=False, have_drv=True):
     rnd = random.Random(seed)
-    cases = list(WITNESSES)
+    cases = list(WITNESSES) + C.load_case_corpus("C11", "sched")
     for i in range((250 if tier == "quick" else 8000) * (4 if search else 1)):
         cases.append(random_case(rnd, i))
     impl, model = run_all(cases, have_drv)
